@@ -173,7 +173,7 @@ def run(tier, seed, replay=None):
         body = HEADER + 'Definition cases : list case := [\n%s].\n' % ';\n'.join(case_gallina(e, c, f) for e, _, c, f, _, _ in part)
         body += 'Eval vm_compute in (bad 0%N cases).\n'
         jobs.append(('c07_%d' % si, body))
-    outs = coq_eval_many(jobs)
+    outs = coq_eval_many(jobs, timeout=900 if tier == "quick" else 3000)
     names = {1: 'model and checker disagree', 2: 'model out of fuel', 3: 'theorem hypotheses not met by the generated case',
              4: 'model: cex and useful disagree'}
     ji = 0
